@@ -467,6 +467,36 @@ func (a *effAnalysis) call(x *effCtx, call ssa.CallInstruction, depth int) {
 		}
 		return
 	}
+	if strings.HasPrefix(id, "golang.org/x/crypto/cryptobyte.String.Read") || strings.HasPrefix(id, "golang.org/x/crypto/cryptobyte.String.Skip") {
+		if len(args) > 0 {
+			if l := a.locOf(x, args[0]); shared(l) {
+				a.report(x.fn, call, "mutating-call", id+" consumes a cryptobyte.String reachable from the "+l.String()+" ("+ir.AccessPath(ir.StripIface(args[0]))+")")
+			}
+		}
+		return
+	}
+	switch id {
+	case "io.MultiReader", "io.TeeReader", "io.LimitReader", "bufio.NewReader", "bufio.NewReaderSize", "io.NopCloser":
+		// the composed reader reads from its operands: an operand that is a cursor object
+		// of the receiver is consumed by whoever reads the result
+		var operands []ssa.Value
+		for _, arg := range args {
+			if elems, ok := variadicElems(arg); ok {
+				operands = append(operands, elems...)
+			} else {
+				operands = append(operands, arg)
+			}
+		}
+		for _, arg := range operands {
+			switch ir.NamedTypeID(ir.StripIface(arg).Type()) {
+			case "bytes.Buffer", "bytes.Reader", "io.SectionReader", "bufio.Reader", "strings.Reader":
+				if l := a.locOf(x, ir.StripIface(arg)); shared(l) {
+					a.report(x.fn, call, "live-cursor", id+" is given a reader of the "+l.String()+" itself ("+ir.AccessPath(ir.StripIface(arg))+"): reading the result consumes the object's state")
+				}
+			}
+		}
+		return
+	}
 	if idxs, ok := mutatingCalls[id]; ok {
 		for _, k := range idxs {
 			if k < len(args) {
